@@ -4,7 +4,15 @@
 EXTENDS CallsValue, Json, FP
 CONSTANT ObsFile
 Obs == ndJsonDeserialize(ObsFile)
-ProgOf(r) == [shape |-> r.shape, rootErr |-> r.rootErr, extErr |-> r.extErr, rootCtx |-> r.rootCtx, extCtx |-> r.extCtx]
+ProgOf(r) == [shape |-> r.shape, rootErr |-> r.rootErr, extErr |-> r.extErr, rootCtx |-> r.rootCtx, extCtx |-> r.extCtx, extId |-> r.extId, wrap |-> r.wrap]
+Rng0(q) == {q[i] : i \in DOMAIN q}
+RECURSIVE FromJ(_)
+FromJ(v) ==
+  CASE v.k \in {"nil", "b"} -> v
+    [] v.k = "p" -> [v EXCEPT !.e = FromJ(v.e)]
+    [] v.k = "s" -> [v EXCEPT !.es = [i \in DOMAIN v.es |-> FromJ(v.es[i])]]
+    [] v.k = "m" -> [v EXCEPT !.kv = {<<FromJ(e[1]), FromJ(e[2])>> : e \in Rng0(v.kv)}]
+    [] v.k = "st" -> [v EXCEPT !.fs = [i \in DOMAIN v.fs |-> FromJ(v.fs[i])]]
 ErrNeeded(p) == UsesExt(p) /\ p.extErr /\ ~p.rootErr
 CtxNeeded(p) == UsesExt(p) /\ p.extCtx /\ ~p.rootCtx
 GenFinger(r) ==
@@ -20,13 +28,15 @@ GenFinger(r) ==
 ExecFinger(r) ==
   LET p == ProgOf(r)
       faults == IF r.faults THEN {"a"} ELSE {}
-      reached == Reached(p, RootSrc, RootTgt, r["in"], faults) IN
+      reached == Reached(p, RootSrc, RootTgt, FromJ(r["in"]), faults) IN
   IF r.panic THEN {<<"C02", "panic", "calls", r.id>>}
   ELSE IF reached = {}
        THEN (IF r.err # "" THEN {<<"C07", "spurious-error", "", r.id>>} ELSE {})
-            \cup (IF r.err = "" /\ r.out # SMapN(p, RootSrc, RootTgt, r["in"]) THEN {<<"C06", "custom-function-result-not-at-every-position", "", r.id>>} ELSE {})
+            \cup (IF r.err = "" /\ FromJ(r.out) # SMapN(p, RootSrc, RootTgt, FromJ(r["in"])) THEN {<<"C06", "custom-function-result-not-at-every-position", "", r.id>>} ELSE {})
        ELSE (IF r.err = "" THEN {<<"C07", "error-dropped", "", r.id>>}
              ELSE IF r.err \notin reached THEN {<<"C07", "wrong-error", "", r.id>>} ELSE {})
+            \cup (IF r.err # "" /\ p.wrap = "using" /\ r.path # FaultPath(p, RootSrc, RootTgt, FromJ(r["in"]), faults, <<>>)
+                  THEN {<<"C07", "wrong-location-path", "", r.id>>} ELSE {})
 Rng(q) == {q[i] : i \in DOMAIN q}
 Finger18(r) ==
   IF r.gen # "ok" THEN {}
